@@ -101,8 +101,9 @@ def check_case(case, counters, sets):
                 src = Stream.filenames(tmp, poll_interval=poll, asynchronous=True)
 
                 def make_file():
-                    counter['n'] += 1
-                    open(os.path.join(tmp, '%04d.dat' % counter['n']), 'w').close()
+                    for _ in range(1 + counter['n'] % 3):        # 1-3 new paths per tick: batches of several files
+                        counter['n'] += 1
+                        open(os.path.join(tmp, '%04d.dat' % counter['n']), 'w').close()
                 for i in range(case['n_items']):
                     loop.call_later(0.3 + i * 0.75, make_file)
             else:
@@ -181,7 +182,13 @@ def check_case(case, counters, sets):
                 loop.call_later(t, do, op)
             horizon = (case['ops'][-1][0] if case['ops'] else 0) + case['n_items'] * (0.75 + svc + poll) + 5
             reason = loop.drive(until_vt=horizon, max_iters=300000)
-            src.stop()
+            if kind in ('from_textfile', 'filenames'):
+                # whatever the history did: with the source running again, everything that exists on disk must
+                # come out (the data is durable, a stop must not lose any of it)
+                do('start')
+                loop.drive(until_vt=horizon + 4 * poll + 6 * svc * 3 + 4, max_iters=300000)
+                horizon = loop.time()
+            do('stop')
             loop.drive(until_vt=horizon + 2 * poll + 2 * svc + 2, max_iters=100000)
             errors = list(env.errors)
             if kind == 'from_textfile':
@@ -246,6 +253,12 @@ def check_case(case, counters, sets):
                 open_ += 1
             elif e[2] == 'END':
                 open_ -= 1
+    if kind in ('from_textfile', 'filenames') and not errors:
+        counters['completeness_checks'] = counters.get('completeness_checks', 0) + 1
+        if sorted(set(nums)) != list(range(1, counter['n'] + 1)):
+            missing = sorted(set(range(1, counter['n'] + 1)) - set(nums))
+            add('C18:item-lost-across-stop-start@%s' % kind, '%d items exist on disk, the source was running again at the end, '
+                'but %s were never delivered (delivered %s)' % (counter['n'], missing[:10], nums[:40]))
     restarts = sum(1 for e in eff_starts) > 1
     if restarts:
         counters['restart_histories'] = counters.get('restart_histories', 0) + 1
